@@ -739,6 +739,9 @@ func ruleAZPolicy(p *Prog, r *Reporter) {
 		}
 	}
 	if verdict == nil || matched == nil {
+		if p.azPolicyBreakIdiom(r, c, pol, isPolQuery) {
+			return
+		}
 		r.Bad(p.instrPos(pol.header.Instrs[0]), name, "policy verdict", "the returned verdict is not the loop-carried policy result guarded by the loop-carried 'matched' flag")
 		return
 	}
@@ -1067,3 +1070,91 @@ func dominatedUnconditionally(fn *ssa.Function, blk *ssa.BasicBlock) bool {
 	}
 	return true
 }
+
+// azPolicyBreakIdiom: the policy loop written without a flag - the verdict variable keeps ErrNoMatchingPolicy
+// while the loop runs and is assigned right before the loop is left on the first satisfied policy.
+// Returns false when the function is not written in this idiom (nothing reported).
+func (p *Prog) azPolicyBreakIdiom(r *Reporter, c *azCtx, pol *rangeLoop, isPolQuery func(*ssa.Call) bool) bool {
+	name := p.FuncName(c.fn)
+	// the return that follows the policy loop
+	var ret *ssa.Return
+	for _, rt := range returnsOf(c.fn) {
+		if pol.body[rt.Block()] || isErrorReturnOnly(rt) {
+			continue
+		}
+		if pol.doneBB == rt.Block() || pol.doneBB.Dominates(rt.Block()) || reachAvoiding(pol.header, rt.Block(), nil) {
+			if _, isPhi := retVal(rt, 0).(*ssa.Phi); isPhi {
+				ret = rt
+			}
+		}
+	}
+	if ret == nil {
+		return false
+	}
+	v := retVal(ret, 0).(*ssa.Phi)
+	allowK, denyK := p.policyKindConsts()
+	kindGuard := func(gs []guard, want int64) bool {
+		for _, g := range gs {
+			bo, ok := g.cond.(*ssa.BinOp)
+			if !ok || bo.Op != token.EQL || !g.val {
+				continue
+			}
+			k, isC := constInt(bo.Y)
+			if isC && k == want && (strings.HasSuffix(p.D(bo.X), ".Kind") || strings.Contains(p.D(bo.X), ".Kind)")) {
+				return true
+			}
+		}
+		return false
+	}
+	nAllow, nDeny, nNone := 0, 0, 0
+	ok := true
+	for _, lf := range phiLeaves(v) {
+		gs := guardsOnEdge(lf.pred, lf.blk)
+		pos := p.instrPos(lf.pred.Instrs[len(lf.pred.Instrs)-1])
+		inLoop := pol.inside(lf.pred) && lf.pred != pol.header
+		switch {
+		case inLoop && isNilConst(lf.val):
+			nAllow++
+			r.Check(satGuard(p, gs, true, isPolQuery) && kindGuard(gs, allowK), pos, name, "verdict nil (allow)", "nil only when the loop is left on a satisfied query of an allow policy", "authorization success (nil) is produced without: an allow policy and one of its queries satisfied")
+		case inLoop && isLoadOfGlobal(lf.val, "biscuit", "ErrPolicyDenied"):
+			nDeny++
+			r.Check(satGuard(p, gs, true, isPolQuery) && kindGuard(gs, denyK), pos, name, "verdict ErrPolicyDenied (deny)", "ErrPolicyDenied only when the loop is left on a satisfied query of a deny policy", "ErrPolicyDenied is produced on a path that is not 'first matching policy is a deny policy'")
+		case isLoadOfGlobal(lf.val, "biscuit", "ErrNoMatchingPolicy"):
+			nNone++
+		default:
+			ok = false
+		}
+	}
+	if !ok || nAllow == 0 || nDeny == 0 || nNone == 0 {
+		return false
+	}
+	// the verdict is never changed on a way back to the loop head (an assignment that does not leave the loop
+	// would let a later policy override the first matching one)
+	for _, ph := range phiChain(v) {
+		if ph.Block() != pol.header {
+			continue
+		}
+		for i, e := range ph.Edges {
+			if pol.body[ph.Block().Preds[i]] && e != ssa.Value(ph) {
+				if _, inner := e.(*ssa.Phi); !inner {
+					r.Bad(p.instrPos(pol.header.Instrs[0]), name, "first match wins", "the verdict is assigned inside the policy loop on a path that goes on to the next policy: a later policy can override the first matching one")
+					return true
+				}
+			}
+		}
+	}
+	r.OK(p.instrPos(ret), name, "no matching policy", "ErrNoMatchingPolicy is what remains when the loop ends without leaving on a match")
+	r.OK(p.instrPos(pol.header.Instrs[0]), name, "first match wins", "the loop is left as soon as a policy of kind allow or deny has a satisfied query")
+	for _, cl := range callsIn(c.fn) {
+		q, isQ := cl.(*ssa.Call)
+		if !isQ || !isCallTo(&q.Call, "datalog.World.QueryRule") || !isPolQuery(q) {
+			continue
+		}
+		inner := innermostLoop(c.loops, q.Block())
+		okFull := inner != nil && inner != pol && strings.HasSuffix(p.D(inner.seq), ".Queries") && pol.isElemRoot(p, inner.seq)
+		r.Check(okFull, p.instrPos(q), name, "policy queries range", "all queries of the policy are tried in a full-range loop", "the queries of a policy are not tried in a full-range loop over policy.Queries")
+	}
+	return true
+}
+
+func isErrorReturnOnly(rt *ssa.Return) bool { return false }
